@@ -28,6 +28,7 @@ func RunC06(c *Ctx, r *Report) {
 	// the Encrypted payload is appended to a list built from nothing: were the old list's storage kept, the SK
 	// payload would overwrite the first inner payload of a list the caller still uses for the next message
 	c.protectListFreshRule(r, prefix+"protect.list-rebuilt-from-nil", em)
+	c.protectIntactOnFailureRule(r, prefix+"protect.message-intact-on-failure", a)
 	f := c.NewFA(em)
 	rule := prefix + "protect-order"
 	r.Rule(rule, "encryptMsg: inner = Payloads.Encode() of the original list; ciphertext = encryptPayload(inner); Reset and BuildEncrypted(next, ciphertext|Zero(L)) dominate the ikeMsg.Encode() whose result minus its last L octets is MAC'd; the MAC is copied into sk.EncryptedData[len-L:] of the payload BuildEncrypted returned; after that Encode nothing but the checksum copy changes the message", 6)
@@ -408,4 +409,63 @@ func phiAlternatives(v ssa.Value, blk *ssa.BasicBlock, depth int) []valAlt {
 		}
 	}
 	return out
+}
+
+// protectIntactOnFailureRule: the message keeps its payloads until the steps of encryptMsg that can fail for
+// reasons outside the message (an inner payload that does not encode, the random source behind IV and padding)
+// have succeeded. Otherwise a failed protect leaves the caller's message without payloads, and protecting it
+// again yields a valid SK message that carries nothing - the peer does not recover the original payloads.
+func (c *Ctx) protectIntactOnFailureRule(r *Report, rule string, a *ikeAnchors) {
+	r.Rule(rule, "encryptMsg changes the message's payload list (Reset, BuildEncrypted, a store to Payloads) only on the nil-error edges of Payloads.Encode() and encryptPayload(): a protect that fails there leaves the message as it was", 2)
+	em := a.encryptMsg
+	contEncode := c.Method("message", "IKEPayloadContainer", "Encode")
+	if em == nil || contEncode == nil || a.encryptPayload == nil {
+		r.undecided(rule, "anchors", "-", "encryptMsg / container Encode / encryptPayload do not resolve")
+		return
+	}
+	ces, eps := c.callsTo(em, contEncode), c.callsTo(em, a.encryptPayload)
+	if len(ces) != 1 || len(eps) != 1 {
+		r.bad(rule, "ike.encryptMsg: one Payloads.Encode and one encryptPayload", c.Pos(em.Pos()), fmt.Sprintf("found %d / %d", len(ces), len(eps)))
+		return
+	}
+	ce, ep := ces[0], eps[0]
+	n := 0
+	for _, b := range em.Blocks {
+		for _, ins := range b.Instrs {
+			what := ""
+			switch x := ins.(type) {
+			case *ssa.Call:
+				g := x.Call.StaticCallee()
+				if g == nil || g.Signature.Recv() == nil || len(x.Call.Args) == 0 {
+					continue
+				}
+				fa, ok := x.Call.Args[0].(*ssa.FieldAddr)
+				if !ok || paramIndex(em, fa.X) != 0 || !strings.HasSuffix(FieldKey(fa.X.Type(), fa.Field), "IKEMessage.Payloads") {
+					continue
+				}
+				// a method on &ikeMsg.Payloads that writes the container
+				if len(c.DirectEffects(g).sorted()) == 0 && !strings.HasPrefix(g.Name(), "Build") && g.Name() != "Reset" {
+					continue
+				}
+				if g == contEncode {
+					continue
+				}
+				what = "call of " + g.Name() + " on ikeMsg.Payloads"
+			case *ssa.Store:
+				fa, ok := x.Addr.(*ssa.FieldAddr)
+				if !ok || paramIndex(em, fa.X) != 0 || !strings.HasSuffix(FieldKey(fa.X.Type(), fa.Field), "IKEMessage.Payloads") {
+					continue
+				}
+				what = "store to ikeMsg.Payloads"
+			default:
+				continue
+			}
+			n++
+			ok := onNilErrEdge(errResult(ce), b) && onNilErrEdge(errResult(ep), b)
+			r.Check(ok, rule, "ike.encryptMsg: "+what, c.InstrPos(ins), "on the nil-error edges of Payloads.Encode() and encryptPayload()", "the payload list is changed before encoding / encryption has succeeded: when one of them fails the caller's message has lost its payloads")
+		}
+	}
+	if n == 0 {
+		r.undecided(rule, "ike.encryptMsg: writers of the payload list", c.Pos(em.Pos()), "no Reset / BuildEncrypted / store found")
+	}
 }
